@@ -282,7 +282,7 @@ def main(argv=None):
         rp = os.path.join(replay_dir, re.sub(r"[^A-Za-z0-9_.-]+", "_", sr["name"]) + ".json")
         os.makedirs(replay_dir, exist_ok=True)
         json.dump({"property": prop, "obligation": sr["name"], "detail": sr["detail"], "native_failing_inputs": []}, open(rp, "w"), indent=1)
-        if sr["name"].startswith("scan:no-leak"):
+        if sr["name"].startswith(("scan:no-leak", "scan:fresh-store", "scan:export-frame", "scan:export-determinism")):
             violations.append((sr["name"], rp, " no-failing-input-found"))
         else:
             undecided.append(sr["name"] + " (a function outside the contracts writes this field: it needs a contract)")
@@ -340,6 +340,13 @@ def main(argv=None):
         "wall_s": round(wall, 1),
         "violations": len(violations),
     }
+    if driver_result and driver_result.get("evaluations"):
+        # the bounded part of the check, in the exploration-style keys (never added to the proof counts)
+        ev["coverage"]["evaluations"] = driver_result.get("evaluations")
+        ev["coverage"]["distinct_nontrivial"] = driver_result.get("distinct")
+        ev["coverage"]["rule"] = "bounded native battery (not proof): " + str(driver_result.get("rule"))
+        if driver_result.get("samples"):
+            ev["coverage"]["samples"] = samples + [{"native_case": x} for x in driver_result["samples"][:4]]
     json.dump(ev, open(ev_path, "w"), indent=1)
 
     # ------------------------------------------------------------------ report
